@@ -65,6 +65,57 @@ def bndlit(b):
     return '(' + ', '.join(zlit(x) for x in b) + ')'
 
 
+# ---- optional ordinates (Z / M).  The values are drawn from ONE small pool for both ordinates so that "absent",
+# "present but falsy (0.0)" and "a Z on one side equal to an M on the other" all occur between a member and a query.
+ORD = (None, 0.0, 1.0, 2.0)
+VARIANTS = [(z, m) for z in ORD for m in ORD]                   # 16: none, z, m, z and m, z == 0.0, m == 0.0, ...
+ZM_POS = [(1, 1), (2, 3), (5, 5), (7, 2), (3, 6)]               # positions of points / linestring vertices
+ZM_SQ = [(0, 0), (6, 0), (0, 6), (6, 6)]                         # lower-left corners of 4x4 squares (hole: 2x2 in the middle)
+# time specs (hours, see shapes.mk_dt) for members and for arguments: instants and intervals that nest, overlap, are disjoint
+DT_MEMBER = [None, ('i', 0), ('i', 2), ('v', 1, 3), ('v', 0, 4), ('i', 4)]
+DT_ARG_IN = [('i', 2), ('v', 1, 3), ('v', 2, 2)]
+DT_ARG_OUT = [('i', 50), ('v', 40, 60), ('v', 2, 50)]
+DT_MULTI = [None, ('i', 2), ('v', 1, 3), ('i', 50)]
+
+
+def cz(d):
+    return Coordinate(d[0], d[1], z=d[2], m=d[3])
+
+
+def zm_build(desc):
+    """desc -> a fresh member: ['pt', [x, y, z, m]] | ['ln', [[x, y, z, m], ...]] | ['pg', outline (open), [hole (open), ...]]"""
+    if desc[0] == 'pt':
+        return GeoPoint(cz(desc[1]))
+    if desc[0] == 'ln':
+        return GeoLineString([cz(d) for d in desc[1]])
+
+    def ring(r):
+        return [cz(d) for d in r] + [cz(r[0])]
+    return GeoPolygon(ring(desc[1]), holes=[GeoPolygon(ring(h)) for h in desc[2]])
+
+
+def zm_random(rng, kind):
+    def v():
+        return list(rng.choice(VARIANTS))
+    if kind == 'point':
+        return ['pt', list(rng.choice(ZM_POS)) + v()]
+    if kind == 'line':
+        return ['ln', [list(p) + v() for p in rng.sample(ZM_POS, rng.choice((2, 3)))]]
+    x, y = rng.choice(ZM_SQ)
+    holes = [[list(p) + v() for p in sq(x + 1, y + 1, 2)[:4]]] if rng.random() < 0.5 else []
+    return ['pg', [list(p) + v() for p in sq(x, y, 4)[:4]], holes]
+
+
+def zm_positions(desc):
+    """where to ask: every vertex of the member (+ for polygons a point strictly inside and the middle = inside the hole if any)"""
+    if desc[0] == 'pt':
+        return [tuple(desc[1][:2])]
+    if desc[0] == 'ln':
+        return [tuple(d[:2]) for d in desc[1]]
+    x, y = desc[1][0][:2]
+    return [(x, y), (x + 0.5, y + 0.5), (x + 2, y + 2)] + [tuple(d[:2]) for h in desc[2] for d in h[:1]]
+
+
 def main():
     ck = Check('C04')
     ck.build_theories(['theories/Props/C04.vo', 'theories/Corr/ShapeK.vo'])
@@ -185,6 +236,222 @@ def main():
                 out[0]._properties['mut'] = 1
                 if 'mut' in Md._properties or any('mut' in s._properties for s in out[1:]):
                     meta[-1]['property_violation'] = {'expected': 'split members own a copy of the parent properties'}
+    # ================================================================================================================
+    # Helpers of the families below.  `mem` is always the harness's OWN list of members (objects built a second time from
+    # the same description, never the objects inside the multi-shape), and every expected answer is the union-of-members
+    # law evaluated on the members' own purely spatial answers (contains_coordinate / contains_shape / intersects_shape).
+    quick = ck.tier == 'quick'
+
+    def recv_case(M, mem, X, parts, is_multi, m):
+        r = guarded(lambda: ([[a.contains_shape(p) for p in parts] for a in mem],
+                             [[a.intersects_shape(p) for p in parts] for a in mem],
+                             M.contains_shape(X), M.intersects_shape(X)))
+        if r[0] != 'Ok':
+            ck.violation({'kind': 'implementation-raised', 'case': dict(m, err=r[1])})
+            return None
+        ctab, itab, ocs, ois = r[1]
+        add(f'KRecv {len(mem)} {len(parts)} {blit(is_multi)} {tlit(ctab)} {tlit(itab)} {blit(ocs)} {blit(ois)}',
+            dict(m, ctab=ctab, itab=itab, obs=[ocs, ois]))
+        exp_is = any(any(r_) for r_ in itab)
+        exp_cs = all(any(ctab[i][j] for i in range(len(mem))) for j in range(len(parts)))
+        if (ocs, ois) != (exp_cs, exp_is):
+            meta[-1]['property_violation'] = {'expected': [exp_cs, exp_is]}
+        return exp_cs, exp_is
+
+    def arg_case(x, M, mem, m):
+        r = guarded(lambda: ([x.intersects_shape(a) for a in mem], [x.contains_shape(a) for a in mem],
+                             x.intersects_shape(M), x.contains_shape(M)))
+        if r[0] != 'Ok':
+            ck.violation({'kind': 'implementation-raised', 'case': dict(m, err=r[1])})
+            return
+        xi, xc, o_is, o_cs = r[1]
+        add(f'KArg {blist(xi)} {blist(xc)} {blit(o_is)} {blit(o_cs)}', dict(m, xi=xi, xc=xc, obs=[o_is, o_cs]))
+        if (o_is, o_cs) != (any(xi), all(xc)):
+            meta[-1]['property_violation'] = {'expected': [any(xi), all(xc)]}
+
+    def cc_case(M, mem, c, m):
+        """all three entry points of the coordinate test against any(member.contains_coordinate(c))"""
+        r = guarded(lambda: ([a.contains_coordinate(c) for a in mem], [M.contains_coordinate(c), M.contains(c), c in M]))
+        if r[0] != 'Ok':
+            ck.violation({'kind': 'implementation-raised', 'case': dict(m, coord=[c.longitude, c.latitude, c.z, c.m], err=r[1])})
+            return None
+        ccs, o = r[1]
+        exp = any(ccs)
+        shown = next((x for x in o if x != exp), o[0])          # the model is given an entry point that deviates, if one does
+        add(f'KCC {blist(ccs)} {blit(shown)}', dict(m, coord=[c.longitude, c.latitude, c.z, c.m], ccs=ccs,
+                                                  obs={'contains_coordinate': o[0], 'contains(Coordinate)': o[1], 'in': o[2]}))
+        if any(x != exp for x in o):
+            meta[-1]['property_violation'] = {'expected': exp}
+        return exp
+
+    def bounds_case(M, mem, m):
+        bs_ = [ibounds(a) for a in mem]
+        ob_ = guarded(lambda: ibounds(M))
+        if all(b is not None for b in bs_) and (ob_[0] != 'Ok' or ob_[1] is not None):
+            add(f'KBounds {listlit([bndlit(b) for b in bs_])} {reslit(ob_, bndlit)}', dict(m, bs=bs_, obs=ob_))
+
+    OPS = ('append', 'insert0', 'extend', 'set', 'pop', 'pop0', 'del', 'rebind')
+
+    def history(cls, descs, build, new_desc, probe, m, nops):
+        """Mechanism class: anything a multi-shape derives from its members and keeps (an index, a cached union, cached
+        bounds ...).  `geoshapes` is a public, plain list (the library's own tests pop from it), so after an in-place edit
+        or a re-assignment of it every query has to answer for the CURRENT members.  The multi-shape is asked everything
+        once (so whatever is computed lazily exists), then its member list is edited step by step and asked again."""
+        M = cls([build(d) for d in descs])
+        cur = list(descs)
+        hist = []
+        probe(M, cur, dict(m, members=list(cur), history=[]), True)
+        for _ in range(nops):
+            op = rng.choice([o for o in OPS if len(cur) > 1 or o not in ('pop', 'pop0', 'del')])
+            i = rng.randrange(len(cur))
+            if op == 'append':
+                d = new_desc(); M.geoshapes.append(build(d)); cur.append(d); hist.append([op, d])
+            elif op == 'insert0':
+                d = new_desc(); M.geoshapes.insert(0, build(d)); cur.insert(0, d); hist.append([op, d])
+            elif op == 'extend':
+                ds = [new_desc(), new_desc()]; M.geoshapes.extend([build(d) for d in ds]); cur.extend(ds); hist.append([op, ds])
+            elif op == 'set':
+                d = new_desc(); M.geoshapes[i] = build(d); cur[i] = d; hist.append([op, i, d])
+            elif op == 'pop':
+                M.geoshapes.pop(); cur.pop(); hist.append([op])
+            elif op == 'pop0':
+                M.geoshapes.pop(0); cur.pop(0); hist.append([op])
+            elif op == 'del':
+                del M.geoshapes[i]; del cur[i]; hist.append([op, i])
+            else:                       # the attribute is assigned a new list: the old members reversed, plus one
+                d = new_desc(); M.geoshapes = list(reversed(M.geoshapes)) + [build(d)]; cur = list(reversed(cur)) + [d]
+                hist.append([op, 'reversed +', d])
+            probe(M, cur, dict(m, members=list(cur), history=[list(h) for h in hist]), False)
+
+    # ================================================================================================================
+    # Family "ordinates".  Mechanism class: a multi-shape that answers the coordinate test from anything other than its
+    # members' own contains_coordinate - a hash / tuple / text form of the coordinates, a different notion of equality.
+    # Coordinates carry optional Z and M; the members decide by Coordinate.__eq__ (points, linestring vertices) or ignore
+    # both (areas), so every (z, m) variant on the member side is asked with every variant on the query side, at the
+    # member's own positions, for multi-points / -linestrings / -polygons, through contains_coordinate, contains(Coordinate)
+    # and `in`.  The same multi-shapes then go through the edit history above.
+    zm_kinds = {'point': MultiGeoPoint, 'line': MultiGeoLineString, 'poly': MultiGeoPolygon}
+
+    def zm_probe_for(kind, firsts):
+        seen = set()
+
+        def probe(M, cur, m, first):
+            mem = [zm_build(d) for d in cur]
+            for d in cur:
+                seen.update(zm_positions(d))                    # positions of members that were removed are still asked
+            pts = sorted(seen) + [(9, 9)]
+            qs = [(p, v) for p in pts for v in VARIANTS]
+            if not first or kind == 'poly':
+                qs = rng.sample(qs, min(len(qs), 12 if quick else 40))
+            for p, v in qs:
+                c = cz(list(p) + list(v))
+                exp = cc_case(M, mem, c, dict(m, k='cc-ordinates', kind=kind))
+                if first:
+                    firsts[(p, v)] = exp
+                if exp is not None and (any(x is not None for d in cur for x in _ords(d, p)) or any(x is not None for x in v)):
+                    if first or firsts.get((p, v)) != exp:      # after an edit: only where the edit changed the answer
+                        nontriv.add(('zm', kind, str(m['members']), str(m['history']), p, v))
+            bounds_case(M, mem, dict(m, k='bounds-ordinates', kind=kind))
+            for p in rng.sample(pts, min(len(pts), 2)):
+                v = rng.choice(VARIANTS)
+                X = GeoPoint(cz(list(p) + list(v)))
+                recv_case(M, mem, X, [GeoPoint(cz(list(p) + list(v)))], False,
+                          dict(m, k='recv-ordinates', kind=kind, arg=['pt', list(p) + list(v)]))
+        return probe
+
+    def _ords(d, p):
+        cs = [d[1]] if d[0] == 'pt' else d[1] if d[0] == 'ln' else d[1] + [c for h in d[2] for c in h]
+        return [x for c in cs if tuple(c[:2]) == tuple(p) for x in c[2:]]
+
+    for kind, cls in zm_kinds.items():
+        # every tier, every seed: a decoy member and a target member carrying each variant, either order; the target's
+        # position is asked with all 16 variants (M on one side only, z == 0.0 against None, a Z equal to the other side's M ...)
+        for k_, v in enumerate(VARIANTS):
+            dv = list(VARIANTS[(5 * k_ + 3) % 16])
+            if kind == 'point':
+                tgt, decoy = ['pt', [1, 1] + list(v)], ['pt', [5, 5] + dv]
+            elif kind == 'line':
+                tgt, decoy = ['ln', [[2, 3, None, None], [1, 1] + list(v)]], ['ln', [[5, 5] + dv, [7, 2, None, None]]]
+            else:
+                tgt = ['pg', [[0, 0] + list(v), [4, 0, None, None], [4, 4] + dv, [0, 4, None, None]], [[[1, 1] + list(v), [3, 1] + dv, [3, 3, None, None], [1, 3, None, None]]]]
+                decoy = ['pg', [[6, 6] + dv, [10, 6, None, None], [10, 10, None, None], [6, 10] + list(v)], []]
+            descs = [decoy, tgt] if k_ % 2 == 0 else [tgt, decoy]
+            M, mem = cls([zm_build(d) for d in descs]), [zm_build(d) for d in descs]
+            for p in ([(1, 1)] if kind != 'poly' else [(0, 0), (1, 1)]):
+                for q in VARIANTS:
+                    cc_case(M, mem, cz(list(p) + list(q)), {'k': 'cc-ordinates', 'kind': kind, 'members': descs, 'history': []})
+                    if v != (None, None) or q != (None, None):
+                        nontriv.add(('zm', kind, str(descs), p, q))
+        # seeded: 1..4 random members (positions repeat, so several members share a position with different ordinates)
+        for _ in range(6 if quick else 40):
+            descs = [zm_random(rng, kind) for _ in range(rng.choice((1, 2, 3, 4)))]
+            history(cls, descs, zm_build, lambda: zm_random(rng, kind), zm_probe_for(kind, {}), {'kind': kind}, 2 if quick else 4)
+
+    # the same edit history on the fixture multi-shapes (2-D members): coordinate queries, bounds, receiver predicates
+    def pool_probe_for(kind, firsts):
+        pool = POOLS[kind][0]
+
+        def probe(M, cur, m, first):
+            mem = [pool[n]() for n in cur]
+            for c in queries:
+                exp = cc_case(M, mem, c, dict(m, k='cc-history', kind=kind))
+                if first:
+                    firsts[c.to_float()] = exp
+                elif firsts.get(c.to_float()) != exp:
+                    nontriv.add(('hist', kind, str(m['members']), str(m['history']), c.to_float()))
+            bounds_case(M, mem, dict(m, k='bounds-history', kind=kind))
+            for n in rng.sample(sorted(singles), 4 if quick else 10):
+                recv_case(M, mem, singles[n](), [singles[n]()], False, dict(m, k='recv-history', kind=kind, arg=['s', n]))
+                arg_case(singles[n](), M, mem, dict(m, k='arg-history', kind=kind, single=n))
+        return probe
+
+    for kind, (pool, cls) in POOLS.items():
+        for _ in range(5 if quick else 30):
+            names = [rng.choice(sorted(pool)) for _ in range(rng.choice((1, 2, 3)))]
+            history(cls, names, lambda n, pool=pool: pool[n](), lambda pool=pool: rng.choice(sorted(pool)),
+                    pool_probe_for(kind, {}), {'kind': kind}, 2 if quick else 4)
+
+    # ================================================================================================================
+    # Family "members with their own time bounds".  Mechanism class: the purely spatial predicates of a multi-shape going
+    # through a time-aware entry point of its members (`x in member`, member.contains / member.intersects) or otherwise
+    # looking at time bounds.  contains_shape / intersects_shape are spatial: whatever dt the members, the multi-shape, the
+    # argument or the argument's parts carry (none, instants, nested / overlapping / disjoint intervals), the answer is the
+    # union-of-members law over the members' SPATIAL answers.
+    def stamp(s, spec):
+        return s.set_dt(mk_dt(spec), inplace=True)
+
+    def mk_stamped(kind, pm, stamps, mdt):
+        pool, cls = POOLS[kind]
+        return cls([stamp(pool[n](), st) for n, st in zip(pm, stamps)], dt=mk_dt(mdt)), [stamp(pool[n](), st) for n, st in zip(pm, stamps)]
+
+    stamped = [(k_, pm, [DT_MEMBER[1 + (i + j) % 5] for j in range(len(pm))], DT_MULTI[i % 4]) for i, (k_, pm) in enumerate(fixed_multis)]
+    pick = [m_ for m_ in multis if m_ not in fixed_multis]
+    for k_, pm in rng.sample(pick, min(len(pick), 12 if quick else 60)):
+        st = [rng.choice(DT_MEMBER) for _ in pm]
+        st[rng.randrange(len(pm))] = rng.choice(DT_MEMBER[1:])          # at least one member is stamped
+        stamped.append((k_, pm, st, rng.choice(DT_MULTI)))
+    multi_args = rng.sample(multis, min(len(multis), 6 if quick else 20)) + fixed_multis[:2]
+    for kind, pm, st, mdt in stamped:
+        M, mem = mk_stamped(kind, pm, st, mdt)
+        base = {'multi': [kind, list(pm)], 'member_dt': st, 'multi_dt': mdt}
+        for n in singles:
+            specs = ([rng.choice(DT_ARG_OUT), rng.choice(DT_ARG_IN)] + ([None] if rng.random() < 0.34 else [])) if quick \
+                else DT_ARG_OUT + DT_ARG_IN + [None]
+            for spec in specs:
+                e = recv_case(M, mem, stamp(singles[n](), spec), [stamp(singles[n](), spec)], False,
+                              dict(base, k='recv-stamped', arg=['s', n], arg_dt=spec))
+                if e is not None and spec is not None and e[1]:
+                    nontriv.add(('st', kind, pm, str(st), n, spec))
+                arg_case(stamp(singles[n](), spec), M, mem, dict(base, k='arg-stamped', single=n, single_dt=spec))
+        for k2, pm2 in multi_args:
+            for _ in range(1 if quick else 3):
+                st2 = [rng.choice(DT_ARG_OUT + DT_ARG_IN + [None]) for _ in pm2]
+                mdt2 = rng.choice(DT_MULTI)
+                X, parts = mk_stamped(k2, pm2, st2, mdt2)
+                e = recv_case(M, mem, X, parts, True, dict(base, k='recv-stamped', arg=['m', k2, list(pm2)], part_dt=st2, arg_dt=mdt2))
+                if e is not None and any(s_ is not None for s_ in st2) and e[1]:
+                    nontriv.add(('st', kind, pm, str(st), k2, pm2, str(st2)))
+
     # empty multi-shape: bounds raises (min of empty sequence)
     ob = guarded(lambda: MultiGeoPoint([]).bounds)
     add(f'KBounds [] {reslit((ob[0], (0, 0, 0, 0)) if ob[0] == "Ok" else ob, bndlit)}', {'k': 'bounds-empty', 'obs': ob[0]})
@@ -201,7 +468,15 @@ def main():
     ck.finish(rule='multi-polygons / -linestrings / -points built from named member pools, 1..4 members, member orders permuted '
                    '(all orders up to 3 members and 8 sampled orders of 4 in thorough, 4 sampled per set in quick) x every single fixture (polygons incl. with hole, lines, points, boxes, circle) '
                    'and sampled multi-shape arguments, both as receiver and as argument; coordinate queries; bounds; split with dt/properties. '
-                   'Member-level answers are the implementation own. non-trivial = the deciding member is NOT the first member (distinct cases counted)',
+                   'Ordinates: members and queries carrying every (z, m) variant out of {None, 0.0, 1.0, 2.0}^2 (points, linestring vertices, polygon '
+                   'outline/hole vertices), asked at the members\' positions through contains_coordinate, contains(Coordinate) and `in`. '
+                   'Edit histories: after a first round of queries the public geoshapes list is appended to / inserted into / extended / item-assigned / '
+                   'popped / deleted from / re-assigned, and coordinate queries, bounds and the receiver/argument predicates are judged against the '
+                   'current members after every step. Stamped members: members, multi-shape, arguments and argument parts carry their own time bounds '
+                   '(none / instant / nested, overlapping, disjoint intervals); contains_shape / intersects_shape are judged against the law over the '
+                   'members\' spatial answers. '
+                   'Member-level answers are the implementation own. non-trivial = the deciding member is NOT the first member; an ordinate present on the '
+                   'member or the query side; an edit that changed the answer; a stamped argument that intersects a stamped multi-shape (distinct cases counted)',
               assumptions=['member-level predicates are abstract in the theorems (C01/C02 decide them)'])
 
 
